@@ -27,6 +27,21 @@ pub trait Family: Sized + 'static {
     fn p_as_q(a: Arc<Self::P>) -> Result<Arc<Self::Q>, Arc<Self::P>> {
         Err(a)
     }
+    /// serde's `deserialize_in_place` on an `Arc<P>` (configuration A). None = not available.
+    fn de_in_place(_place: &mut Arc<Self::P>, _v: u32) -> Option<Result<(), ()>> {
+        None
+    }
+}
+
+#[cfg(feature = "cfg_a")]
+pub fn de_in_place_impl<T: for<'de> serde::Deserialize<'de>>(place: &mut Arc<T>, v: u32) -> Option<Result<(), ()>> {
+    use serde::de::IntoDeserializer;
+    let d: serde::de::value::U32Deserializer<serde::de::value::Error> = v.into_deserializer();
+    Some(serde::Deserialize::deserialize_in_place(d, place).map_err(|_| ()))
+}
+#[cfg(not(feature = "cfg_a"))]
+pub fn de_in_place_impl<T>(_place: &mut Arc<T>, _v: u32) -> Option<Result<(), ()>> {
+    None
 }
 
 macro_rules! family {
@@ -39,6 +54,9 @@ macro_rules! family {
             type Q = $q;
             type H = $h;
             type E = $e;
+            fn de_in_place(place: &mut Arc<Self::P>, v: u32) -> Option<Result<(), ()>> {
+                $crate::family::de_in_place_impl(place, v)
+            }
             fn p_as_q(a: Arc<Self::P>) -> Result<Arc<Self::Q>, Arc<Self::P>> {
                 Ok(a)
             }
@@ -53,6 +71,9 @@ macro_rules! family {
             type Q = $q;
             type H = $h;
             type E = $e;
+            fn de_in_place(place: &mut Arc<Self::P>, v: u32) -> Option<Result<(), ()>> {
+                $crate::family::de_in_place_impl(place, v)
+            }
             fn hs_from_slice(h: Self::H, s: &[Self::E]) -> Option<Arc<HeaderSlice<Self::H, [Self::E]>>> {
                 Some(Arc::from_header_and_slice(h, s))
             }
@@ -76,6 +97,9 @@ macro_rules! family {
             type Q = $q;
             type H = $h;
             type E = $e;
+            fn de_in_place(place: &mut Arc<Self::P>, v: u32) -> Option<Result<(), ()>> {
+                $crate::family::de_in_place_impl(place, v)
+            }
         }
     };
     ($name:ident, $p:ty, $q:ty, $h:ty, copy $e:ty) => {
@@ -87,6 +111,9 @@ macro_rules! family {
             type Q = $q;
             type H = $h;
             type E = $e;
+            fn de_in_place(place: &mut Arc<Self::P>, v: u32) -> Option<Result<(), ()>> {
+                $crate::family::de_in_place_impl(place, v)
+            }
             fn hs_from_slice(h: Self::H, s: &[Self::E]) -> Option<Arc<HeaderSlice<Self::H, [Self::E]>>> {
                 Some(Arc::from_header_and_slice(h, s))
             }
